@@ -18,7 +18,7 @@ SUBJ_ALPHA2 = ["a", "+", "(", ")", "|", "{", "}", "$", "^", ".", "\\", "U1", "U2
 
 
 # third family: deep bracket expressions
-PAT_ALPHA3 = ["a", "*", "[", "]", "\\", ".", "-"]
+PAT_ALPHA3 = ["a", "*", "[", "]", "\\", ".", "-", "^"]
 SUBJ_ALPHA3 = ["a", "*", ".", "[", "\\", "-"]
 
 
